@@ -54,9 +54,21 @@ def parser_models(run, negs):
         run.negative_control("MC_Parser", "MC_Parser_neg_%s.cfg" % n)
 
 
+def gen_tla(run, module, cfg):
+    """Packets printed by a TLA+ generator module as "@@REPLAY|{json}" lines."""
+    rc, out = vlib.tlc(module + ".tla", os.path.join(vlib.SPEC, cfg), run.wd, workers=vlib.NCPU, timeout=1800)
+    bad = vlib.tlc_failed(rc, out)
+    if bad:
+        raise ToolError("%s failed: %s\n%s" % (module, bad, vlib.tlc_error_text(out)))
+    pk = [rest for _, rest in vlib.prints(out, "REPLAY")]
+    st = vlib.tlc_stats(out)
+    run.cov.setdefault("generators", []).append({"module": module, "count": len(pk), "states": st["distinct"] if st else 0})
+    return pk
+
+
 def parser_inputs(run, n_struct, n_random, n_havoc, n_adv, big=True):
     sd = vlib.seed()
-    pk = []
+    pk = gen_tla(run, "Gen_Ptr", "Gen_Ptr.cfg")
     pk += vlib.vdrive_gen("structured", sd, n_struct)
     pk += vlib.vdrive_gen("honest", sd + 1, n_struct // 4)
     pk += vlib.vdrive_gen("random", sd + 2, n_random)
@@ -648,6 +660,11 @@ def history_run(run, pid):
     sd = vlib.seed()
     extra = gen_s1(run, 12 if quick(run) else 200)
     scen = histgen.histories(sd, run.tier, extra)
+    # S3: every behaviour of at most 3 (thorough: 4) abstract operations, enumerated by TLC
+    seqs = [json.loads(x) for x in gen_tla(run, "Gen_Hist", "Gen_Hist_%s.cfg" % run.tier)]
+    scen += histgen.behaviours(seqs, histgen.behaviour_bases())
+    scen += histgen.size_limit_histories()
+    run.cov["behaviours_enumerated_by_tlc"] = len(seqs)
     events, owner, path = history_events(run, scen)
     bad, out = vlib.validate(path, "Trace_History", "Trace_History.cfg", run.wd, len(events), {"VIOLATION-HIST"}, shards=4)
     facts = collections.Counter()
@@ -725,3 +742,43 @@ def hist_all(run):
     """development aid (not in the manifest): all classes of history violations at once"""
     history_run(run, "HIST")
     run.cov["distinct_nontrivial"] = 2
+
+
+# ------------------------------------------------------------------------------------------------
+# C11: deleting while iterating
+
+@check("C11")
+def c11(run):
+    run.assumptions += ["records are identified by their TTL (every record of the walked section gets its own); the question by its position",
+                        "the order in which survivors are re-yielded after a deletion is not compared (the code restarts from the section start; continuing would satisfy the property as well, and the model is checked for both)"]
+    t = "" if quick(run) else ""
+    run.model("MC_Walk", "MC_Walk.cfg")
+    run.model("MC_Walk", "MC_Walk_continue.cfg")
+    run.negative_control("MC_Walk", "MC_Walk_neg.cfg")
+    scen = histgen.walks(run.tier)
+    scen, obs, path = drive_filtered(run, scen, "walk")
+    bad, out = vlib.validate(path, "Trace_Walk", "Trace_Walk_C11.cfg", run.wd, len(obs), {"VIOLATION-C11"})
+    facts = collections.Counter()
+    nontrivial = 0
+    for _, ln, txt in vlib.event_prints(out, "FACT"):
+        if txt == "skipped":
+            facts["skipped"] += 1
+            continue
+        sec, nd, ny = txt.split("|")
+        facts[sec] += 1
+        if int(nd) > 0:
+            nontrivial += 1
+        facts["yields"] += int(ny)
+    run.cov["evaluations"] += len(obs) - facts.get("skipped", 0)
+    run.cov["traces_validated_against_impl"] += len(obs) - facts.get("skipped", 0) - len(bad)
+    run.cov["walks_by_section"] = {k: v for k, v in facts.items() if k not in ("yields", "skipped")}
+    run.cov["total_yields"] = facts.get("yields", 0)
+    run.cov["distinct_nontrivial"] = nontrivial
+    run.cov["exhaustive"] = True
+    run.cov["rule"] = "one walk per (section contents of 0..%d records, OPT position, compressed or pointer-free, reader kind, deletion subset); non-trivial = at least one record is deleted during the walk" % (4 if quick(run) else 6)
+    run.cov["samples"] = [vlib.shorten(o, 700) for o in vlib.sample(obs, 2)]
+    if facts.get("skipped", 0) > 0:
+        raise ToolError("%d walk scenarios were not C11 scenarios (input rejected or identities not unique)" % facts["skipped"])
+    for ln, (t, why) in sorted(bad.items()):
+        sc = json.loads(scen[ln - 1])
+        run.violation("walk:%s|%s" % (sc["sec"], why), why, sc)
